@@ -13,6 +13,7 @@ import (
 	"strings"
 
 	"verif/c03gen"
+	"verif/drivers/c03drv/probe"
 	"verif/drivers/c03drv/prog"
 	"verif/glang"
 	"verif/harness"
@@ -25,6 +26,8 @@ type Plan struct {
 	Prog    string `json:"prog"`
 	Class   string `json:"class"`
 	Source  string `json:"source,omitempty"`
+	// Probe: a program in a shape the shipped goose rejects (reject-or-faithful).
+	Probe bool `json:"probe,omitempty"`
 	// Interleavings of the GooseLang side sampled for the determinism clause.
 	GLSeeds []uint64 `json:"gl_seeds,omitempty"`
 }
@@ -55,6 +58,13 @@ func defText(name string) string {
 	}
 	return vText[i : i+10+j]
 }
+
+var (
+	probeBatch   c03gen.Batch
+	probeByName  = map[string]c03gen.Meta{}
+	probeProgram *glang.Program
+	probeVText   string
+)
 
 var (
 	batch    c03gen.Batch
@@ -99,6 +109,20 @@ func load() {
 		return
 	}
 	program = p
+	// probe shapes (optional)
+	if pm, err := os.ReadFile(os.Getenv("VERIF_C03_PROBE_META")); err == nil {
+		if json.Unmarshal(pm, &probeBatch) == nil {
+			for _, f := range probeBatch.Funcs {
+				probeByName[f.Name] = f
+			}
+		}
+	}
+	if pv, err := os.ReadFile(os.Getenv("VERIF_C03_PROBE_V")); err == nil {
+		probeVText = string(pv)
+		if pp, err := glang.Parse(probeVText); err == nil {
+			probeProgram = pp
+		}
+	}
 }
 
 type c03 struct{}
@@ -149,6 +173,10 @@ func (c03) Gen(rng *simrt.Rand, tier string, run int) interface{} {
 	}
 	f := batch.Funcs[run%len(batch.Funcs)]
 	p := Plan{GenSeed: batch.Seed, N: len(batch.Funcs), Prog: f.Name, Class: f.Class, Source: f.Source}
+	if run%12 == 11 && len(probeBatch.Funcs) > 0 {
+		f = probeBatch.Funcs[(run/12)%len(probeBatch.Funcs)]
+		p = Plan{GenSeed: batch.Seed, N: len(batch.Funcs), Prog: f.Name, Class: f.Class, Source: f.Source, Probe: true}
+	}
 	for i := 0; i < 3; i++ {
 		p.GLSeeds = append(p.GLSeeds, rng.Uint64())
 	}
@@ -197,17 +225,32 @@ func (c03) Exec(pj json.RawMessage, tape *simrt.Tape, keepLog bool) harness.RunO
 	if p.GenSeed != batch.Seed || p.N != len(batch.Funcs) {
 		return harness.RunOut{Infra: fmt.Sprintf("plan is for batch (seed %d, n %d) but the driver was built for (seed %d, n %d)", p.GenSeed, p.N, batch.Seed, len(batch.Funcs))}
 	}
+	program, byName, registry := program, byName, prog.Registry
+	if p.Probe {
+		// reject-or-faithful: a shape the shipped translator rejects
+		if _, ok := probeByName[p.Prog]; !ok {
+			return harness.RunOut{Infra: "unknown probe program " + p.Prog}
+		}
+		if probeProgram == nil || probeProgram.Funcs[p.Prog] == nil {
+			out.Fingerprint = simrt.HashString("probe-rejected" + p.Prog)
+			out.Probes["probe_rejected_by_goose"]++
+			return out
+		}
+		out.Probes["probe_accepted_by_goose"]++
+		program, byName, registry = probeProgram, probeByName, probe.Registry
+		facts = "/probe"
+	}
 	meta, ok := byName[p.Prog]
 	for _, f := range meta.Features {
 		if f == "loop-var-captured-directly" {
 			facts = "/loop-var-captured-directly"
 		}
 	}
-	fn := prog.Registry[p.Prog]
+	fn := registry[p.Prog]
 	if !ok || fn == nil {
 		return harness.RunOut{Infra: "unknown program " + p.Prog}
 	}
-	if gooseErr != "" {
+	if gooseErr != "" && !p.Probe {
 		out.Fingerprint = simrt.HashString("rejected")
 		fail("gl.rejected", "goose did not translate the generated package, which the unchanged tree accepts:\n"+gooseErr)
 		return out
@@ -221,7 +264,7 @@ func (c03) Exec(pj json.RawMessage, tape *simrt.Tape, keepLog bool) harness.RunO
 		return out
 	}
 	// ---- auxiliary API-correspondence assertion (not simulation) --------------------
-	if !strings.Contains(p.Source, "S"+strings.TrimPrefix(p.Prog, "p")+"{") { // struct programs call methods defined elsewhere
+	if !p.Probe && !strings.Contains(p.Source, "S"+strings.TrimPrefix(p.Prog, "p")+"{") { // struct programs call methods defined elsewhere
 		dt := defText(p.Prog)
 		for _, pr := range apiPairs {
 			g, v := strings.Count(p.Source, pr[0]), strings.Count(dt, pr[1])
@@ -286,6 +329,10 @@ func (c03) Exec(pj json.RawMessage, tape *simrt.Tape, keepLog bool) harness.RunO
 		out.Log = append(out.Log, fmt.Sprintf("guided GooseLang run: outcome=%s value=%s detail=%s race=%q", gr.Outcome, gr.Value, gr.Detail, gr.Race))
 	}
 	if gr.Outcome == "unknown-primitive" {
+		if p.Probe {
+			out.Inconclusive = "probe-uses-unmodelled-primitive"
+			return out
+		}
 		out.Infra = "interpreter: " + gr.Detail
 		return out
 	}
@@ -335,6 +382,10 @@ func (c03) Exec(pj json.RawMessage, tape *simrt.Tape, keepLog bool) harness.RunO
 			out.Fingerprint = out.Fingerprint*1099511628211 ^ r.Fingerprint
 			switch {
 			case r.Outcome == "unknown-primitive":
+				if p.Probe {
+					out.Inconclusive = "probe-uses-unmodelled-primitive"
+					return out
+				}
 				out.Infra = "interpreter: " + r.Detail
 				return out
 			case r.Race != "":
